@@ -17,6 +17,8 @@ from ..schema import (
     InputObjectType,
     InputValue,
     InterfaceType,
+    ListType,
+    NonNullType,
     ObjectType,
     ScalarType,
     Schema,
@@ -408,9 +410,16 @@ class TypeInfoVisitor(DispatchingVisitor):
         self._leave_input_value()
 
     def enter_list_value(self, node):
-
-        item_type = unwrap_type(self.input_type) if self.input_type else None
-
+        # Only peel one list level off the expected type: items of a list
+        # literal provided for `[T]` are expected to be `T` (which can itself
+        # be a list or non-null). When the expected type is not a list, items
+        # are checked against the type itself.
+        list_type = self.input_type
+        if isinstance(list_type, NonNullType):
+            list_type = list_type.type
+        item_type = (
+            list_type.type if isinstance(list_type, ListType) else list_type
+        )
         self._input_type_stack.append(
             item_type if item_type and is_input_type(item_type) else None
         )
